@@ -38,15 +38,16 @@ VARIABLES l,      \* next line
           inputs, \* set of [n, i, c]: input chain of participant n in instance i
           prog,   \* participant -> <<instance, round, phase rank>> last reported
           decs,   \* set of [n, i, v]
+          adv,    \* adversary of the current run ("script": a TLC-generated attack/schedule replay, whose forged messages the real validator is EXPECTED to refuse)
           bad
-ovars == <<l, dlv, outs, inputs, prog, decs, bad>>
+ovars == <<l, dlv, outs, inputs, prog, decs, adv, bad>>
 
 ToJ(j) == IF j.none THEN NoJ ELSE [ph |-> j.ph, r |-> j.r, v |-> j.v, S |-> Range(j.S)]
 ToM(m) == [i |-> m.i, s |-> m.s, r |-> m.r, ph |-> m.ph, v |-> m.v, j |-> ToJ(m.j)]
 Ev == TraceLog[l]
 Acting == {"Start", "Receive", "Alarm"}
 
-Init == l = 2 /\ dlv = [p \in H |-> << >>] /\ outs = {} /\ inputs = {} /\ prog = [p \in H |-> <<0, 0, 0>>] /\ decs = {} /\ bad = {}
+Init == l = 2 /\ dlv = [p \in H |-> << >>] /\ outs = {} /\ inputs = {} /\ prog = [p \in H |-> <<0, 0, 0>>] /\ decs = {} /\ adv = "" /\ bad = {}
 
 InputOf(I, n, i) == LET S == {x \in I : x.n = n /\ x.i = i} IN IF S = {} THEN Bot ELSE (CHOOSE x \in S : TRUE).c
 
@@ -197,25 +198,26 @@ ActStep ==
         /\ decs' = IF Ev.dec # Bot THEN decs \cup {[n |-> n, i |-> i, v |-> Ev.dec]} ELSE decs
         /\ bad' = bad \cup {<<l, c>> : c \in nb}
         /\ (nb = {} \/ Cardinality(bad) > 40 \/ PrintT(<<"VERIF_BAD", l, nb>>))
+        /\ UNCHANGED adv
 
 RejStep ==
   /\ Ev.ev = "Rejected"
-  /\ LET nb == IF Ev.byz THEN {"Conf_ByzMessageRejected"} ELSE {"C07_EmitsValid"}
+  /\ LET nb == IF Ev.byz THEN (IF adv = "script" THEN {} ELSE {"Conf_ByzMessageRejected"}) ELSE {"C07_EmitsValid"}
      IN /\ bad' = bad \cup {<<l, c>> : c \in nb}
-        /\ (Cardinality(bad) > 40 \/ PrintT(<<"VERIF_BAD", l, nb>>))
-  /\ UNCHANGED <<dlv, outs, inputs, prog, decs>>
+        /\ (nb = {} \/ Cardinality(bad) > 40 \/ PrintT(<<"VERIF_BAD", l, nb>>))
+  /\ UNCHANGED <<dlv, outs, inputs, prog, decs, adv>>
 
-OtherStep == Ev.ev \in {"CrashStop"} /\ UNCHANGED <<dlv, outs, inputs, prog, decs, bad>>
+OtherStep == Ev.ev \in {"CrashStop"} /\ UNCHANGED <<dlv, outs, inputs, prog, decs, adv, bad>>
 \* a new run with the same configuration starts: forget the previous run's history
 ResetStep == Ev.ev = "Reset" /\ dlv' = [p \in H |-> << >>] /\ outs' = {} /\ inputs' = {} /\ prog' = [p \in H |-> <<0, 0, 0>>] /\ decs' = {}
-             /\ UNCHANGED bad
+             /\ adv' = Ev.adversary /\ UNCHANGED bad
 
 EndStep ==
   /\ Ev.ev = "End"
   /\ LET nb == Failed(EndClauses(Ev))
      IN /\ bad' = bad \cup {<<l, c>> : c \in nb}
         /\ (nb = {} \/ PrintT(<<"VERIF_BAD", l, nb>>))
-  /\ UNCHANGED <<dlv, outs, inputs, prog, decs>>
+  /\ UNCHANGED <<dlv, outs, inputs, prog, decs, adv>>
 
 Next == l <= Len(TraceLog) /\ l' = l + 1 /\ (ActStep \/ RejStep \/ OtherStep \/ EndStep \/ ResetStep)
 Spec == Init /\ [][Next]_ovars
